@@ -18,6 +18,8 @@ from fractions import Fraction
 VERIF = os.path.dirname(os.path.dirname(os.path.abspath(__file__)))
 REPO = os.environ.get("XGCM_REPO", "/repo")
 DRIVER = os.path.join(VERIF, "lean", ".lake", "build", "bin", "driver")
+if "XGCM_REPO" in os.environ:          # development aid: run the harness against another checkout
+    sys.path.insert(0, REPO)
 
 # numba stand-in (pure Python) so that xgcm.transform imports; xgcm untouched
 sys.path.insert(0, os.path.join(VERIF, "shims"))
